@@ -163,7 +163,7 @@ def gen_opt_config(rng, name, space):
         "GeneticAlgorithmOptimizer": dict(mutation_rate=[0.0, 0.5, 1.0], crossover_rate=[0.0, 0.5, 1.0], offspring=[1, 5, 10], n_parents=[2]),
         "EvolutionStrategyOptimizer": dict(mutation_rate=[0.0, 0.7, 1.0], crossover_rate=[0.0, 0.3, 1.0], offspring=[1, 20], replace_parents=[False, True]),
         "DifferentialEvolutionOptimizer": dict(mutation_rate=[0.3, 0.9, 2.0], crossover_rate=[0.1, 0.5, 0.9]),
-        "ParallelTemperingOptimizer": dict(n_iter_swap=[1, 2, 5, 0]),
+        "ParallelTemperingOptimizer": dict(n_iter_swap=[1, 2, 5, 3]),   # 0 is not a period (x % 0): outside the domain
         "DownhillSimplexOptimizer": dict(alpha=[1, 2.5], gamma=[2, 4], beta=[0.5, 0.9], sigma=[0.5, 0.1]),
         "PatternSearch": dict(n_positions=[1, 2, 4, 8], pattern_size=[0.25, 0.9, 2.0], reduction=[0.9, 0.5]),
         "PowellsMethod": dict(iters_p_dim=[1, 3, 10]),
@@ -186,3 +186,15 @@ def gen_opt_config(rng, name, space):
     import inspect
     ok = set(inspect.signature(opt_class(name).__init__).parameters)
     return {k: v for k, v in cfg.items() if k in ok}
+
+
+def space_exhausted(spec, positions):
+    """True when a model-based optimizer with replacement=False has already evaluated every point of the (unconstrained)
+    space -- the situation of finding F-D17 (C03): nothing is left to propose.  positions: evaluated index tuples."""
+    cfg = spec.get("cfg") or {}
+    if spec["name"] not in SMBO or cfg.get("replacement") is not False:
+        return False
+    size = 1
+    for v in spec["space"].values():
+        size *= len(v)
+    return len({tuple(int(x) for x in p) for p in positions}) >= size
